@@ -77,6 +77,7 @@ type lexer struct {
 	input string
 	toks  [64]token
 	len   int
+	depth int // variable nesting depth
 	start int
 	pos   int
 	width int
@@ -212,8 +213,8 @@ func lexVerb(l *lexer) error {
 
 func lexVariable(l *lexer) error {
 	r := l.next()
-	if r != '{' {
-		return l.errUnexpected()
+	if r != '{' || l.depth > 0 {
+		return l.errUnexpected() // variables can not be nested
 	}
 	if err := l.emit(tokenVariableStart); err != nil {
 		return err
@@ -228,7 +229,10 @@ func lexVariable(l *lexer) error {
 			return err
 		}
 
-		if err := lexSegments(l); err != nil {
+		l.depth++
+		err := lexSegments(l)
+		l.depth--
+		if err != nil {
 			return err
 		}
 		r = l.next()
